@@ -529,19 +529,23 @@ class NetCDFWrite(IOWrite):
             if compression_type == "gathered":
                 # ----------------------------------------------------
                 # Compression by gathering
+                #
+                # The sample dimension is that of the construct's own
+                # list variable. Different constructs of a field may
+                # gather the same dimensions with different list
+                # variables, so the sample dimension can not be
+                # looked up from the compressed dimensions alone. An
+                # equal list variable that compresses the same
+                # dimensions and is already in the file is reused,
+                # otherwise the list variable is written now.
                 # ----------------------------------------------------
-                if sample_ncdim is None:
-                    # The list variable has not yet been written to
-                    # the file, so write it and also get the netCDF
-                    # name of the sample dimension.
-                    list_variable = self.implementation.get_list(construct)
-                    sample_ncdim = self._write_list_variable(
-                        field,
-                        list_variable,
-                        #
-                        compress=" ".join(compressed_ncdims),
-                    )
-                    g["sample_ncdim"][compressed_ncdims] = sample_ncdim
+                list_variable = self.implementation.get_list(construct)
+                sample_ncdim = self._write_list_variable(
+                    field,
+                    list_variable,
+                    compress=" ".join(compressed_ncdims),
+                )
+                g["gathered_sample_ncdims"].add(sample_ncdim)
 
             elif compression_type == "ragged contiguous":
                 # ----------------------------------------------------
@@ -3562,6 +3566,11 @@ class NetCDFWrite(IOWrite):
         #
         g["sample_ncdim"] = {}
 
+        # The sample dimensions of all of the list variables of the
+        # field (different constructs may gather the same dimensions
+        # with different list variables)
+        g["gathered_sample_ncdims"] = set()
+
         #
         g["part_ncdim"] = None
 
@@ -5990,8 +5999,11 @@ class NetCDFWrite(IOWrite):
                 form, otherwise `False`.
 
         """
+        g = self.write_vars
         return bool(
             set(ncdimensions).intersection(
-                self.write_vars["sample_ncdim"].values()
+                set(g["sample_ncdim"].values()).union(
+                    g.get("gathered_sample_ncdims", ())
+                )
             )
         )
